@@ -254,6 +254,21 @@ def go_test(workdir, pkg, mapping, run, env=None, timeout=900, tags="verif", arg
     return p.returncode, p.stdout
 
 
+def died_in_dtail(out):
+    """index of the Go runtime's death message ('panic:' / 'fatal error:') when the harness process died inside dtail's own
+    code (a frame of github.com/mimecast/dtail/internal or /cmd follows that is not a harness file), else -1"""
+    import re
+    for mark in ("panic:", "fatal error:"):
+        i = out.find(mark)
+        if i < 0:
+            continue
+        frames = re.findall(r"\n\t(\S+\.go):\d+", out[i:i + 8000])
+        own = [f for f in frames if "/internal/" in f or "/cmd/" in f]
+        if own and not re.search(r"/(c\d\d[a-z_0-9]*|vcommon)_test\.go$", own[0]):
+            return i
+    return -1
+
+
 def go_build(workdir, pkg, out, mapping=None, tags="verif", timeout=600):
     cmd = ["go", "build", "-tags", tags, "-o", out]
     if mapping:
